@@ -363,8 +363,10 @@ def c11_jobs(Job, tier):            # noqa: F811
 
 # ---- gzip reader (C10 ii) ----------------------------------------------------------------------------------------------
 def gz_jobs(Job, cfg=CFG_NDEBUG, tier="quick"):
-    g = ["check_zlib_error_code", "gz_inflate_loop"]
-    return [Job("D_check_zlib_error_code_%s" % cfg[0], "harness/dfs_gz.c", "h_check_zlib", enforce=["check_zlib_error_code"],
+    g = ["check_zlib_error_code", "gz_inflate_init", "gz_inflate_loop"]
+    return [Job("D_gz_inflate_init_%s" % cfg[0], "harness/dfs_gz.c", "h_gz_init", enforce=["gz_inflate_init"], replace=["check_zlib_error_code"],
+                defines=list(cfg[1]), extract=ext(g), tier=tier),
+            Job("D_check_zlib_error_code_%s" % cfg[0], "harness/dfs_gz.c", "h_check_zlib", enforce=["check_zlib_error_code"],
                 defines=list(cfg[1]), extract=ext(g), tier=tier),
             Job("D_gz_inflate_loop_%s" % cfg[0], "harness/dfs_gz.c", "h_gz_loop", enforce=["gz_inflate_loop"], replace=["check_zlib_error_code"],
                 loops=True, defines=list(cfg[1]), extract=ext(g), tier=tier, cover=True, solver="portfolio")] + gzread_jobs(Job, cfg, tier)
